@@ -152,8 +152,11 @@ class Module:
 
 
 class Project:
-    def __init__(self, root: str | None = None):
+    def __init__(self, root: str | None = None, overlay: dict | None = None):
+        """*overlay* maps a path relative to the root (``urwid/x.py``) to replacement source text;
+        it is used only by the rules' self-test (mutants / benign twins analysed in memory)."""
         self.root = root or REPO
+        self.overlay = overlay or {}
         self.modules: dict[str, Module] = {}
         self.functions: dict[str, FuncInfo] = {}
         self.classes: dict[str, ClassInfo] = {}
@@ -172,8 +175,11 @@ class Project:
                     paths.append(os.path.join(dp, f))
         for p in paths:
             rel = os.path.relpath(p, self.root)
-            with open(p, encoding="utf-8") as fh:
-                src = fh.read()
+            if rel in self.overlay:
+                src = self.overlay[rel]
+            else:
+                with open(p, encoding="utf-8") as fh:
+                    src = fh.read()
             h.update(rel.encode())
             h.update(src.encode())
             modname = rel[:-3].replace(os.sep, ".")
